@@ -56,6 +56,8 @@ fixed("FX-C06-05", "C06", "3f05f4c", "Path.Unmarshal into a struct/slice/map pan
 
 fixed("FX-C10-03", "C10", "a395240", "data race on FieldQuery.hash (W/W and R/W in (*FieldQuery).Hash) when one query is shared through contexts")
 
+fixed("FX-C11-02", "C11", "10c1296", "a DebugDOT(w) writer given without Debug() was written to (206 bytes) and closed by a later unrelated Debug() call: Option.DebugDOTOut/DebugOut survived in the pooled context")
+
 # ------------------------------------------------------------------ C05
 ALL15 = r"(Valid|Unmarshal:.+|Decode:.+)"
 STREAM = r"(Valid|Decode:.+)"
